@@ -20,7 +20,8 @@ through `run_append` — every prefix of every run.  `es₁ ++ es₂` reads "the
   `ad_P_monotone_from_constructor`, `ad_P_monotone_modulo_children`
 * termination flag: `done_iff_S_empty`, `done_iff_partial`, `done_iff_naive`,
   `done_iff_decoupled`, `done_is_fixpoint`, `finished_stays_finished`, `naive_terminates`
-* counters: `round_step`, `round_counts_active_calls`, `accounting`
+* counters: `round_step`, `round_counts_active_calls`, `accounting`, `requests_le_cap`,
+  `requests_eq_cap_evalAll`, `batch_is_clamped_batch_size`
 * relation (R): `specOk_step`, `specOk_sound_done`, `specOk_sound_active`, `specOk_sound_requests`,
   `specOk_sound_sets`, `specOk_sound_ad`
 -/
@@ -337,6 +338,38 @@ theorem accounting (c : Cfg) (es : List Env) :
   rw [h0, Nat.zero_add] at h1
   rw [h3, Rat.zero_add] at h2
   exact ⟨h1, h2⟩
+
+/-- **A call never requests more than its batch**: the number of requested evaluations is at most
+`Out.cap` — `|active|` for PaVeBa / Auer / NaiveElimination, `min(batch, |active|)` for the batched
+algorithms (`min(batch, m·|active|)` (design, objective) pairs for the decoupled problems), `1` for
+VOGP_AD, `0` once finished.  (The harness additionally demands *equality* from the implementation,
+which is what a batch of size `batch_size` clamped to the active set means.) -/
+theorem requests_le_cap (c : Cfg) (s : State) (e : Env) :
+    (step c s e).2.req.length ≤ (step c s e).2.cap := by
+  cases h : isDone c s
+  · rw [step_of_not_done e h]; exact req_le_cap c s e
+  · rw [step_of_done e h]; simp [doneOut]
+
+/-- **PaVeBa, Auer, NaiveElimination sample every active design**: an active call requests exactly
+`cap = |active|` evaluations. -/
+theorem requests_eq_cap_evalAll (c : Cfg) (s : State) (e : Env) (h : c.alg.evalAll = true)
+    (hd : isDone c s = false) : (step c s e).2.req.length = (step c s e).2.cap := by
+  rw [step_of_not_done e hd]; exact req_eq_cap_evalAll c s e h
+
+/-- **A batch is `batch_size` clamped to what the active set offers — no fewer.**  The two batch
+selections of the model return exactly `min(batch, |active|)` (decoupled: `min(batch, m·|active|)`)
+requests whenever the environment offers at least that many valid picks (designs of the active set,
+objective indices `< m`), and all of the valid picks otherwise. -/
+theorem batch_is_clamped_batch_size (c : Cfg) (act : List Nat) (picks : List (Nat × Nat)) :
+    (cappedC c act picks).length =
+      min (min c.batch act.length) (picks.filter (fun p => act.contains p.1)).length ∧
+    (cappedD c act picks).length =
+      min (min c.batch (c.m * act.length))
+        (picks.filter (fun p => act.contains p.1 && decide (p.2 < c.m))).length :=
+  ⟨cappedC_length c act picks, cappedD_length c act picks⟩
+
+example : (run cfgPartial (init cfgPartial) envsPartial).2.map (·.cap) = [2, 2, 0] := by
+  decide +kernel
 
 example : allReqs (run cfgPartial (init cfgPartial) envsPartial).2 =
     [(0, some 0), (1, some 1), (0, some 1), (1, some 1)] := by decide +kernel
